@@ -57,6 +57,13 @@ CancelConfigs == { c \in QSelectConfigs \cup InsertConfigs \cup QStreamConfigs :
 Ends(c) == /\ Len(c.script) > 0 /\ c.script[Len(c.script)].k = "eos"
            /\ (c.scn # "select" /\ c.needInfo => \E i \in 1..Len(c.script) : c.script[i].k = "hdr")
 EndConfigs == { c \in CancelConfigs : Ends(c) }
+\* a write that blocks and then breaks while the server's answer (an exception, the end of the stream) arrives: MC_QL_wbreak.cfg
+WBreakConfigs == { c \in InsertConfigs \cup QStreamConfigs \cup QSelectConfigs :
+                     /\ c.rfail = 0 /\ c.wbreak = -1 /\ Len(c.plan) <= 1
+                     /\ c.script \in { S(<<"exc">>), S(<<"hdr", "exc">>), S(<<"hdr", "prog", "exc">>), S(<<"hdr", "eos">>), S(<<"eos">>),
+                                        S(<<"hdr", "data", "eos">>) } }
+\* a server exception while the sender is (or gets) blocked in a write: MC_QL_live_excstall.cfg
+ExcStallConfigs == { c \in InsertConfigs : c.rfail = 0 /\ c.wbreak = -1 /\ c.script \in { S(<<"exc">>), S(<<"hdr", "exc">>) } }
 \* the column-info hand-over without its repairs (MC_QL_info_neg_*.cfg)
 No == FALSE
 InfoConfigs == { c \in InsertConfigs \cup QStreamConfigs : c.needInfo /\ WellFormed(c.script) /\ c.rfail = 0 /\ c.wbreak = -1
